@@ -1,7 +1,7 @@
 """Single source of truth for MANIFEST.json (bin/genmanifest)."""
 HOOK_COMMITS = ["f6aadb6", "84163bb", "bf252b3", "af52714"]  # short shas of the `verif hooks:` commits in /repo, oldest first
 # properties whose check has been integrated and verified on the unchanged tree (entries come from checks/entries/<id>.json)
-READY = {"C02", "C03", "C04", "C06", "C07", "C08", "C09", "C10", "C11", "C12", "C13", "C14", "C15", "C16", "C17", "C18", "C19", "C20"}
+READY = {"C02", "C03", "C04", "C05", "C06", "C07", "C08", "C09", "C10", "C11", "C12", "C13", "C14", "C15", "C16", "C17", "C18", "C19", "C20"}
 NOTES = ("Every check: bin/check <id> [--tier quick|thorough] [--replay path]; honours VERIF_SEED/VERIF_TIER; rebuilds the harness "
          "from /repo's working tree with -tags verif; scratch under /var/tmp, removed at exit. Exit 2 = machinery failure, never a violation.")
 NOT_APPLICABLE = {}
